@@ -309,6 +309,10 @@ def run(ctx, col, tier):
              "preserve order (no unordered executor API)", floor=7, shape=True)
     col.not_decided += ["directory walking (os.walk order)", "what process pools do with exceptions"]
     col.assumptions += ["Executor.map and tqdm's process_map return results in input order (documented)"]
+    from ..rules import memo
+    memo.run(ctx, col, ('swcgeom.core.population', 'swcgeom.transforms.population'))
+    from ..rules import ignoredparam
+    ignoredparam.run(ctx, col, ('swcgeom.core.population', 'swcgeom.transforms.population'))
     col.guard(iter_rule, ctx, col)
     col.guard(cache_rule, ctx, col)
     col.guard(chain_rule, ctx, col)
